@@ -209,7 +209,14 @@ class VTask(Task):
             return TaskResult.success(outputs=out)
         if kind == "transient":
             n = int(beh.get("n", 1))
-            if beh.get("ctx"):
+            if beh.get("ctx") == "list":
+                # progress kept in a container taken from the context and mutated in place
+                items = stage.context.get("done_" + tname, [])
+                entry["progress_seen"] = len(items)
+                if len(items) < n:
+                    items.append("item%d" % len(items))
+                    raise TransientError("vf transient", context_update={"done_" + tname: items})
+            elif beh.get("ctx"):
                 done = int(stage.context.get("progress_" + tname, 0))
                 entry["progress_seen"] = done
                 if done < n:
